@@ -311,6 +311,7 @@ def parse_items(src: Src, a: int, b: int) -> List[Item]:
                 q += 1
             trn = re.sub(r'\s+', '', tr) if tr is not None else None
             if ty.lstrip().startswith('&'): tn = '&' + tn
+            if ty.lstrip().startswith('('): tn = re.sub(r'\s+', '', ty)     # tuple self type: the whole type text
             name = ('<%s as %s>' % (tn, trn)) if tr is not None else tn
             it = Item('impl', name, 0, src.t(e).end, k, head, j, e)
             it.impl_generics = gen; it.impl_trait = tr; it.impl_type = ty; it.impl_where = wh; it.type_name = tn
